@@ -15,7 +15,6 @@ INVARIANT ModelPermutationInvariant
 INVARIANT ModelBetween
 INVARIANT OnLattice
 INVARIANT AlgRefinesObs
-INVARIANT WinIsBinning
 INVARIANT FitsInv
 CONSTRAINT Emit
 CHECK_DEADLOCK FALSE
